@@ -124,11 +124,16 @@ package ovmf
 //@   loop 2 invariant 0 <= privIndex && privIndex <= len(privateResources) && (ref(unacceptedResources) == 0 || (fresh(unacceptedResources) && ref(unacceptedResources) != ref(privateResources) && ref(unacceptedResources) != ref(ramResources))) && ramResource.Length != 0
 //@   loop 2 decreases[C08] 2 * (len(privateResources) - privIndex) + ite(privIndex < len(privateResources) && privateResources[privIndex].Length != 0 && (privateResources[privIndex].Start + privateResources[privIndex].Length) % 18446744073709551616 > ramResource.Start, 1, 0)
 
+// appendTDHobResource appends one 48-byte resource descriptor (zero owner) to the writer; the write error is ignored by
+// the code, which is harmless for a writer that never fails (the bytes.Buffer it is used with).
 //@ func appendTDHobResource
+//@   requires buf != nil
 //@   assigns nothing
-//@   modifies wrLen, wrLog, rdLeft
+//@   modifies wrLen, wrLog
 //@   sweep[C08]
-//@   ensures forall(r, Int, r != ref(buf) ==> wrLen[r] == old(wrLen)[r] && wrLog[r] == old(wrLog)[r] && rdLeft[r] == old(rdLeft)[r])
+//@   ensures[C05] wrNeverFails(ref(buf)) ==> wrLen[ref(buf)] == old(wrLen)[ref(buf)] + 48 && resDescAt(wrLog[ref(buf)], old(wrLen)[ref(buf)], resourceType, resourceAttributes, gpr.Start, gpr.Length)
+//@   ensures[C05] wrNeverFails(ref(buf)) ==> forall(j, j < old(wrLen)[ref(buf)] ==> wrLog[ref(buf)][j] == old(wrLog)[ref(buf)][j])
+//@   ensures forall(r, Int, r != ref(buf) ==> wrLen[r] == old(wrLen)[r] && wrLog[r] == old(wrLog)[r])
 
 // getTDHOBList serialises the hand-off block into a buffer of the TD HOB section's size.
 // Descriptors: system memory (type 0) with attributes present|initialized|tested (7) for every declared section;
@@ -138,6 +143,24 @@ package ovmf
 //@   atcall appendTDHobResource requires[C05] (p0 == 0 && p1 == 7) || (p0 == 7 && p1 == 7 + ite((p2.Start + p2.Length) % 18446744073709551616 <= 4294967296 || !p.DisableEarlyAccept, 268435456, 0))
 //@   requires p != nil && p.TDHOBregion != nil
 //@   assigns p.TDHOBregion.HostBuffer
+// C05 (hand-off block contents; L is the byte log of the buffer that becomes the TD HOB region's contents): the PHIT
+// (type 1, length 56, version 9, boot mode 0, zero memory fields, end of HOB list = section start + 56 + 48 per
+// descriptor), one system-memory descriptor per declared section in declared order, one unaccepted-memory descriptor per
+// unaccepted range in the given (ascending) order, the end marker (type 0xFFFF, length 8), zeros up to the section size.
+//@   requires[assume] len(privateResources) + len(unacceptedResources) < 1000000
+//@   ghostparam kk Int
+//@   ensures[C05,internal] err == nil ==> len(p.TDHOBregion.HostBuffer) == gpr.Length && forall(j, 0 <= j && j < gpr.Length ==> bytesAt(p.TDHOBregion.HostBuffer, j) == wrLog[tdHOBbuf][j])
+//@   ensures[C05,internal] err == nil ==> hobHdrAt(wrLog[tdHOBbuf], 0, 1, 56) && lg32(wrLog[tdHOBbuf], 8) == 9 && lg32(wrLog[tdHOBbuf], 12) == 0 && lg64(wrLog[tdHOBbuf], 16) == 0 && lg64(wrLog[tdHOBbuf], 24) == 0 && lg64(wrLog[tdHOBbuf], 32) == 0 && lg64(wrLog[tdHOBbuf], 40) == 0 && lg64(wrLog[tdHOBbuf], 48) == (gpr.Start + 56 + 48 * (len(privateResources) + len(unacceptedResources))) % 18446744073709551616
+//@   ensures[C05,internal] err == nil ==> (0 <= kk && kk < len(privateResources) ==> resDescAt(wrLog[tdHOBbuf], 56 + 48 * kk, 0, 7, privateResources[kk].Start, privateResources[kk].Length))
+//@   ensures[C05,internal] err == nil ==> (0 <= kk && kk < len(unacceptedResources) ==> resDescAt(wrLog[tdHOBbuf], 56 + 48 * (len(privateResources) + kk), 7, 7 + ite(ite(unacceptedResources[kk].Start + unacceptedResources[kk].Length >= 18446744073709551616, unacceptedResources[kk].Start + unacceptedResources[kk].Length - 18446744073709551616, unacceptedResources[kk].Start + unacceptedResources[kk].Length) <= 4294967296 || !p.DisableEarlyAccept, 268435456, 0), unacceptedResources[kk].Start, unacceptedResources[kk].Length))
+//@   ensures[C05,internal] err == nil ==> hobHdrAt(wrLog[tdHOBbuf], 56 + 48 * (len(privateResources) + len(unacceptedResources)), 65535, 8) && forall(j, 64 + 48 * (len(privateResources) + len(unacceptedResources)) <= j && j < gpr.Length ==> wrLog[tdHOBbuf][j] == 0)
+//@   loop 1 invariant[C05] wrNeverFails(tdHOBbuf) && wrLen[tdHOBbuf] == 56 + 48 * (rangeindex + 1) && rdLeft[tdHOBbuf] == wrLen[tdHOBbuf]
+//@   loop 1 invariant[C05] hobHdrAt(wrLog[tdHOBbuf], 0, 1, 56) && lg32(wrLog[tdHOBbuf], 8) == 9 && lg32(wrLog[tdHOBbuf], 12) == 0 && lg64(wrLog[tdHOBbuf], 16) == 0 && lg64(wrLog[tdHOBbuf], 24) == 0 && lg64(wrLog[tdHOBbuf], 32) == 0 && lg64(wrLog[tdHOBbuf], 40) == 0 && lg64(wrLog[tdHOBbuf], 48) == (gpr.Start + 56 + 48 * (len(privateResources) + len(unacceptedResources))) % 18446744073709551616
+//@   loop 1 invariant[C05] (0 <= kk && kk <= rangeindex ==> resDescAt(wrLog[tdHOBbuf], 56 + 48 * kk, 0, 7, privateResources[kk].Start, privateResources[kk].Length))
+//@   loop 2 invariant[C05] wrNeverFails(tdHOBbuf) && wrLen[tdHOBbuf] == 56 + 48 * (len(privateResources) + rangeindex + 1) && rdLeft[tdHOBbuf] == wrLen[tdHOBbuf]
+//@   loop 2 invariant[C05] hobHdrAt(wrLog[tdHOBbuf], 0, 1, 56) && lg32(wrLog[tdHOBbuf], 8) == 9 && lg32(wrLog[tdHOBbuf], 12) == 0 && lg64(wrLog[tdHOBbuf], 16) == 0 && lg64(wrLog[tdHOBbuf], 24) == 0 && lg64(wrLog[tdHOBbuf], 32) == 0 && lg64(wrLog[tdHOBbuf], 40) == 0 && lg64(wrLog[tdHOBbuf], 48) == (gpr.Start + 56 + 48 * (len(privateResources) + len(unacceptedResources))) % 18446744073709551616
+//@   loop 2 invariant[C05] (0 <= kk && kk < len(privateResources) ==> resDescAt(wrLog[tdHOBbuf], 56 + 48 * kk, 0, 7, privateResources[kk].Start, privateResources[kk].Length))
+//@   loop 2 invariant[C05] (0 <= kk && kk <= rangeindex ==> resDescAt(wrLog[tdHOBbuf], 56 + 48 * (len(privateResources) + kk), 7, 7 + ite(ite(unacceptedResources[kk].Start + unacceptedResources[kk].Length >= 18446744073709551616, unacceptedResources[kk].Start + unacceptedResources[kk].Length - 18446744073709551616, unacceptedResources[kk].Start + unacceptedResources[kk].Length) <= 4294967296 || !p.DisableEarlyAccept, 268435456, 0), unacceptedResources[kk].Start, unacceptedResources[kk].Length))
 //@   sweep[C08]
 //@   alloc 512 * (len(privateResources) + len(unacceptedResources)) + 4096
 //@   loop 1 invariant forall(r, Int, !fresh(r) ==> wrLen[r] == old(wrLen)[r] && wrLog[r] == old(wrLog)[r] && rdLeft[r] == old(rdLeft)[r]) && tdHOBbuf != nil && fresh(tdHOBbuf) && alloc <= 1024 + 300 * (rangeindex + 1) + ite(gpr.Length < 9223372036854775808, gpr.Length, 0)
